@@ -143,7 +143,12 @@ fn fam_layout(p: &FamPlan) -> Option<Layout> {
         return Some(Layout::from_size_align(n, 1).unwrap());
     }
     if el.size() == 0 {
-        return None;
+        // most entry points short-circuit zero-sized types before they reach the allocator; `alloc_uninit_slice` and
+        // `alloc_uninit_slice_for` do not: they make a zero-sized request (which creates the first chunk of an unallocated arena)
+        return match p.ep {
+            Fam::UninitSlice | Fam::UninitSliceFor => Some(Layout::from_size_align(0, el.align()).unwrap()),
+            _ => None,
+        };
     }
     if p.ep.is_value() {
         return Some(el);
